@@ -34,7 +34,7 @@ type Op struct {
 	B       int    `json:"b,omitempty"`
 }
 
-var listFaults = []string{"list_fail_stderr", "list_fail_silent", "list_fail_after_output", "list_garbage",
+var listFaults = []string{"list_fail_stderr", "list_fail_silent", "list_fail_after_output", "list_cut_midline", "list_garbage",
 	"list_missing_export", "list_extra", "list_partial"}
 
 var corruptKinds = []string{"torn", "zero_tail", "empty_file", "line_drop", "line_dup", "byte_replace", "garbage", "count_tamper", "remove_file"}
